@@ -38,6 +38,7 @@ type Contract struct {
 	Trusted     bool
 	Nilable     map[string]bool
 	Pure        bool            // calls are modelled as applications of an uninterpreted function of the arguments
+	FoldFrame   bool
 	NoEffect    map[string]bool // named function types whose values, when called, are ASSUMED to have no effect on modelled state (user callbacks)
 	Expand      map[string]bool // callees (keys) whose bodies are executed in place although they are pure / have a contract
 	IfaceType   types.Type      // for interface-level contracts
@@ -332,6 +333,8 @@ func (c *Contract) addClause(word, rest string, line int) error {
 		for _, k := range strings.Split(rest, ",") {
 			c.NoEffect[strings.TrimSpace(k)] = true
 		}
+	case "foldframe":
+		c.FoldFrame = true
 	case "tokens":
 		c.Tokens = true
 	case "inline":
